@@ -147,6 +147,10 @@ impl RankSupport {
     pub unsafe fn rank_unchecked(&self, parent: &BitVector, index: usize) -> usize {
         let block = index / Self::BLOCK_SIZE;
         let (word, offset) = bits::split_offset(index);
+        #[cfg(feature = "verif-bounds")]
+        if block >= self.samples.len() { crate::verif::oob("RankSupport::rank_unchecked", block, self.samples.len()); }
+        #[cfg(feature = "verif-probes")]
+        crate::verif::hit(crate::verif::probe::RANK_Q);
 
         // Rank at the start of the block and relative ranks at the start of the words.
         let (block_start, relative_ranks) = *self.samples.get_unchecked(block);
